@@ -28,7 +28,13 @@ class Resource:
 
     def close(self):
         self.lab.log.append({"e": "ResClose", "r": self.rid})
-        if self.raises:
+        if self.raises == "untrack":
+            # a tidy resource: tells the call context that it need not be tracked any longer
+            try:
+                self.lab.current_context.untrack_resource(self)
+            except Exception:
+                pass
+        elif self.raises:
             raise RuntimeError("closing resource %d failed" % self.rid)
 
 
@@ -155,13 +161,14 @@ def run_scenarios(scens, servertype, timeout, seed):
     def main():
         sc = S.CUR
         lab = fresh_lab()
-        for scen in scens:
+        for scen_no, scen in enumerate(scens):
             ser = scen["ser"]
             lab.base = len(lab.net.socks)
             lab.log = []
             sc.set_budget(4000)
             lab.hook_raises = scen["hookraise"]
-            lab.resources = {i: Resource(lab, i, raises=(scen.get("resraise", False) and i == (2 if scen["untrack"] and scen["ntrack"] > 1 else 1)))
+            odd = 2 if scen["untrack"] and scen["ntrack"] > 1 else 1
+            lab.resources = {i: Resource(lab, i, raises=(scen.get("resraise", False) and i == odd and ("untrack" if scen_no % 2 else True)))
                              for i in range(1, 5)}
             lab.session_refs = []
             hang = False
